@@ -15,6 +15,7 @@ import (
 	"sync"
 	"sync/atomic"
 	"time"
+	"unsafe"
 
 	"github.com/codelaboratoryltd/bng/pkg/radius"
 	"go.uber.org/zap"
@@ -33,6 +34,13 @@ var (
 	startTimeout  = 25 * time.Second
 	tickSleep     = 1250 * time.Millisecond
 	stableFor     = 1300 * time.Millisecond
+	// Watchdog for API calls of the manager.  Unlike the waits above, its expiry IS an observation
+	// (event "hang"): the longest a call of the unchanged code can take is bounded by its own timeouts
+	// (StartSession/StopSession: one exchange, < 2 client timeouts; Stop(): ShutdownTimeout 4 s + one
+	// exchange), i.e. about 6 s; the bound is far above that, and a window in which the scheduler
+	// was starved for a substantial part (stall detector) is dropped as inconclusive instead.
+	callTimeout  = 20 * time.Second
+	callStallMax = 5 * time.Second
 )
 
 type Event = map[string]any
@@ -63,6 +71,19 @@ func startStallDetector() {
 			}
 		}()
 	})
+}
+
+// stalledFor: total length of the recorded stalls that overlap [a, b]
+func stalledFor(a, b time.Time) time.Duration {
+	stalls.Lock()
+	defer stalls.Unlock()
+	var d time.Duration
+	for _, iv := range stalls.iv {
+		if iv[0].Before(b) && iv[1].After(a) {
+			d += iv[1].Sub(iv[0])
+		}
+	}
+	return d
 }
 
 func stalledBetween(a, b time.Time) bool {
@@ -170,6 +191,7 @@ type run struct {
 	notes        []string
 	base         string
 	goids        []int64
+	ended        bool // the observation ended before the end of the history (event "hang")
 }
 
 // ---------------------------------------------------------------------------------------------
@@ -483,6 +505,12 @@ func (r *run) startIncarnation(dir string) {
 	}
 }
 
+func (r *run) isEnded() bool {
+	r.mu.Lock()
+	defer r.mu.Unlock()
+	return r.ended
+}
+
 func (r *run) ok() bool {
 	r.mu.Lock()
 	defer r.mu.Unlock()
@@ -510,8 +538,12 @@ func (r *run) ensureLive() {
 	}
 }
 
+// depth reads the manager's pending-record count and channel length.  Not through GetStats():
+// that takes the session-table lock, and a manager whose session table is blocked must not be
+// able to block the harness.
 func (r *run) depth(inc *incarnation) (int, int) {
-	d := int(inc.am.GetStats().PendingQueueDepth)
+	p := (*uint64)(unsafe.Pointer(core.Field(inc.am, "pendingQueueDepth").UnsafeAddr()))
+	d := int(atomic.LoadUint64(p))
 	l := core.Field(inc.am, "pendingQueue").Len()
 	return d, l
 }
@@ -618,16 +650,23 @@ func (r *run) apply(op opSpec) {
 		}
 		r.used[op.Sid] = true
 		r.logEv(Event{"op": "call", "call": "start", "sid": op.Sid})
-		err := inc.am.StartSession(r.session(op.Sid))
-		r.ret(inc, "start", op.Sid, err == nil)
+		var err error
+		if r.guarded(inc, "start", op.Sid, func() { err = inc.am.StartSession(r.session(op.Sid)) }) {
+			r.ret(inc, "start", op.Sid, err == nil)
+		}
 	case "stop":
+		// the session need not be in the table (never started, already stopped, held by an earlier incarnation)
 		r.logEv(Event{"op": "call", "call": "stop", "sid": op.Sid})
-		err := inc.am.StopSession(sessID(op.Sid), radius.TerminateCauseUserRequest)
-		r.ret(inc, "stop", op.Sid, err == nil)
+		var err error
+		if r.guarded(inc, "stop", op.Sid, func() { err = inc.am.StopSession(sessID(op.Sid), radius.TerminateCauseUserRequest) }) {
+			r.ret(inc, "stop", op.Sid, err == nil)
+		}
 	case "interim":
 		r.logEv(Event{"op": "call", "call": "interim", "sid": op.Sid})
-		ok := inc.am.VerifSendInterim(sessID(op.Sid))
-		r.ret(inc, "interim", op.Sid, ok)
+		var ok bool
+		if r.guarded(inc, "interim", op.Sid, func() { ok = inc.am.VerifSendInterim(sessID(op.Sid)) }) {
+			r.ret(inc, "interim", op.Sid, ok)
+		}
 	case "pump":
 		r.pump()
 	case "settle":
@@ -642,7 +681,9 @@ func (r *run) apply(op opSpec) {
 		r.cv.Broadcast()
 		r.mu.Unlock()
 		g0 := time.Now()
-		inc.am.Stop()
+		if !r.guarded(inc, "graceful", 0, func() { inc.am.Stop() }) {
+			return
+		}
 		if stalledBetween(g0.Add(-clientTimeout), time.Now()) {
 			r.setInconclusive("timing-stall: scheduler stall while the manager was shutting down")
 		}
@@ -709,6 +750,91 @@ func (r *run) durable(dir string) []int {
 	return out
 }
 
+// downLocked lists the sessions for whose Accounting-Stop the peer is still unreachable: the
+// refusal script would refuse the next Stop of that session ("while the server stays down").
+func (r *run) downLocked() []int {
+	out := []int{}
+	for k := 1; k <= r.c.NSess; k++ {
+		if r.fail[fmt.Sprintf("stop:%d", k)] > 0 {
+			out = append(out, k)
+		}
+	}
+	return out
+}
+
+// guarded runs one API call of incarnation inc under the watchdog.  The call executes on its own
+// goroutine, so a call that blocks for ever cannot block the run (the goroutine is abandoned with
+// its incarnation).  Reports whether the call returned.
+func (r *run) guarded(inc *incarnation, call string, sid int, fn func()) bool {
+	done := make(chan struct{})
+	t0 := time.Now()
+	go func() {
+		defer close(done)
+		r.register(goid(), inc)
+		fn()
+	}()
+	tm := time.NewTimer(callTimeout)
+	defer tm.Stop()
+	select {
+	case <-done:
+		return true
+	case <-tm.C:
+	}
+	r.hang(inc, call, sid, t0)
+	return false
+}
+
+// hang: an API call of inc has not returned within callTimeout.  If the incarnation crashed
+// meanwhile (crash point inside the call or in the processor) the process is dead anyway and the
+// run goes on with the next incarnation.  Otherwise the processor is left free-running until
+// everything it can still deliver is delivered (as in the final phase), the observation "hang" is
+// recorded with what the persistence directory holds, and the run ends: the blocked incarnation
+// is abandoned (killed at teardown, unobserved).
+func (r *run) hang(inc *incarnation, call string, sid int, t0 time.Time) {
+	if stalledFor(t0, time.Now()) > callStallMax {
+		r.setInconclusive("timing-stall: scheduler stalls while an API call was pending")
+		return
+	}
+	r.mu.Lock()
+	r.gateOpen, r.final = true, true
+	r.cv.Broadcast()
+	r.mu.Unlock()
+	deadline := time.Now().Add(finalTimeout)
+	var stable time.Time
+	for {
+		r.mu.Lock()
+		dead := inc.dead
+		q := r.quiescentLocked(inc)
+		r.mu.Unlock()
+		if dead {
+			return // crashed: nothing this incarnation does (or fails to do) is observed any more
+		}
+		now := time.Now()
+		if q {
+			if stable.IsZero() {
+				stable = now
+			} else if now.Sub(stable) >= stableFor {
+				break
+			}
+		} else {
+			stable = time.Time{}
+		}
+		if now.After(deadline) {
+			r.setInconclusive("hang: the pending queue did not drain")
+			return
+		}
+		time.Sleep(10 * time.Millisecond)
+	}
+	r.ackCheck(inc)
+	r.mu.Lock()
+	if !inc.dead && r.inconclusive == "" {
+		r.log = append(r.log, Event{"op": "hang", "call": call, "sid": sid, "inc": inc.id, "durable": r.durable(inc.dir), "down": r.downLocked()})
+		inc.dead = true
+		r.ended = true
+	}
+	r.mu.Unlock()
+}
+
 // finalPhase: free-running processor, wait for quiescence (all retries drained), observe.
 func (r *run) finalPhase() {
 	for round := 0; round < 6 && r.ok(); round++ {
@@ -760,7 +886,7 @@ func (r *run) finalPhase() {
 		r.ackCheck(inc)
 		r.mu.Lock()
 		if !inc.dead {
-			r.log = append(r.log, Event{"op": "quiesce", "inc": inc.id, "durable": r.durable(inc.dir)})
+			r.log = append(r.log, Event{"op": "quiesce", "inc": inc.id, "durable": r.durable(inc.dir), "down": r.downLocked()})
 			inc.dead = true // observation over; nothing later is recorded
 		}
 		r.mu.Unlock()
@@ -790,7 +916,7 @@ func execute(c caseSpec) *result {
 		os.MkdirAll(filepath.Join(base, "inc1"), 0o755)
 		r.ensureLive()
 		for i, op := range c.Ops {
-			if !r.ok() {
+			if !r.ok() || r.isEnded() {
 				break
 			}
 			r.mu.Lock()
@@ -805,7 +931,7 @@ func execute(c caseSpec) *result {
 		r.mu.Lock()
 		r.opIx = len(c.Ops)
 		r.mu.Unlock()
-		if r.ok() {
+		if r.ok() && !r.isEnded() {
 			r.finalPhase()
 		}
 	}()
